@@ -72,8 +72,12 @@ class Gen:
             return [lex("("), WS] + self.expr(depth - 1, small) + [WS, lex(")")]
         if k < 0.86:
             return [lex("defined"), WS, lex("("), WS, lex(r.choice(self.consts + ["nope"])), WS, lex(")")]
-        if k < 0.92:
+        if k < 0.90:
             return [lex("!"), WS] + self.number(small)
+        if k < 0.95:
+            # both prefix operators: the trivia between `!` and `-` belongs to the `-` token; behind `!` a leading `-` is the
+            # unary minus (not the scope identifier `-`), so the slot after it is a boundary here
+            return [lex("!"), WS, lex("-"), WS] + (self.number(small) if r.random() < 0.6 else [lex(r.choice(self.consts))])
         return self.number(small)
 
     def expr(self, depth=2, small=False):
@@ -445,6 +449,96 @@ def render(items, rng, style="normal"):
 def skeleton(items):
     """the program with canonical minimal layout and lower-case keywords (what all layout variants share)"""
     return render(items, random.Random(0), "min")
+
+
+# ---------------------------------------------------------------- one text per trivia-bearing wrapper of the grammar
+# Key: (grammar function, index of the wrapper inside it) exactly as translated into coq/theories/Gen/ParserTables.v (W_<fn>).
+# Value: a text in which `@` marks the place whose trivia THAT wrapper consumes, or "=fn.k": the wrapper can never receive
+# trivia because wrapper fn.k, applied just before it at the same position, has consumed it already.  `!` in front: the text
+# is expected to give parse diagnostics; `~` in front: the tree does not keep this trivia as an item (the interpolation `{ path }`
+# drops the Located and is rendered from its span).  slot_cases() fails when the translated table has a ws/mws wrapper without an entry.
+SLOT_TEXTS = {
+    ("identifier_path", 0): "=identifier_value.2",
+    ("identifier_value", 1): "lda #!@<foo\n", ("identifier_value", 2): "lda #<@foo\n",
+    ("register_suffix", 0): "lda $10@,x\n", ("register_suffix", 1): "lda $10,@x\n",
+    ("operand", 0): "lda@#1\n", ("operand", 1): "lda@($10),y\n", ("operand", 2): "lda ($10@),y\n",
+    ("operand", 3): "lda@($10,x)\n", ("operand", 4): "lda ($10,x@)\n",
+    ("instruction", 0): "nop\n@lda #1\n", ("instruction", 1): "nop\n@asl\n",
+    ("macro_definition", 0): "nop\n@.macro m(a) { nop }\n", ("macro_definition", 1): ".macro@m(a) { nop }\n",
+    ("macro_definition", 2): ".macro m@(a) { nop }\n", ("macro_definition", 3): ".macro m(a@) { nop }\n",
+    ("error_impl", 0): "!nop\n@)\n",
+    ("label", 0): "nop\n@foo: nop\n",
+    ("data", 0): "nop\n@.byte 1\n", ("data", 1): "nop\n@.word 1\n", ("data", 2): "nop\n@.dword 1\n",
+    ("varconst_impl", 0): "nop\n@.const a = 1\n", ("varconst_impl", 1): ".var@a = 1\n", ("varconst_impl", 2): ".const a@= 1\n",
+    ("pc_definition", 0): "nop\n@* = $1000\n", ("pc_definition", 1): "*@= $1000\n",
+    ("config_definition", 0): "nop\n@.define segment { name = a }\n", ("config_definition", 1): ".define@segment { name = a }\n",
+    ("block", 0): "foo:@{ nop }\n", ("block", 1): "foo: { nop@}\n",
+    ("segment", 0): "nop\n@.segment a { nop }\n", ("loop_", 0): "nop\n@.loop 3 { nop }\n",
+    ("if_", 0): "nop\n@.if 1 { nop }\n", ("if_", 1): ".if 1 { nop }@else { brk }\n",
+    ("align", 0): "nop\n@.align 16\n",
+    ("as_", 0): ".import a@as b from \"x.asm\"\n", ("as_", 1): ".import a as@b from \"x.asm\"\n",
+    ("import", 0): "=arg_list.0", ("import", 1): "nop\n@.import a from \"x.asm\"\n",
+    ("import", 2): ".import@* from \"x.asm\"\n", ("import", 3): ".import a@from \"x.asm\"\n",
+    ("text", 0): "nop\n@.text \"a\"\n", ("text", 1): ".text@ascii \"a\"\n",
+    ("file", 0): "nop\n@.file \"a.bin\"\n",
+    ("interpolated_string", 0): ".file@\"a.bin\"\n", ("interpolated_string", 2): "~.text \"a{@b}c\"\n",
+    ("quoted_string", 0): ".import a from@\"x.asm\"\n",
+    ("test", 0): "nop\n@.test t { nop }\n", ("assert", 0): "nop\n@.assert 1 == 1\n",
+    ("trace", 0): "nop\n@.trace\n", ("trace", 1): ".trace@(a)\n", ("trace", 2): ".trace (a@)\n",
+    ("eof", 0): "nop@",
+    ("number", 1): "lda #!@$10\n", ("number", 2): "lda #$@10\n", ("number", 3): "lda #!@%01\n", ("number", 4): "lda #%@01\n",
+    ("number", 6): "lda #!@10\n", ("number", 8): ".var v = !@true\n", ("number", 10): ".var v = !@false\n",
+    ("expression_parens", 1): "lda #!@(1)\n", ("expression_parens", 2): "lda #(1@)\n",
+    ("current_pc", 1): ".word !@*\n",
+    ("arg_list", 0): ".byte@1, 2\n", ("arg_list", 1): ".byte 1@, 2\n", ("arg_list", 2): ".byte 1,@2\n",
+    ("fn_call_impl", 1): "nop\n@m(1)\n", ("fn_call_impl", 2): "lda #!@defined(x)\n",
+    ("fn_call_impl", 3): "lda #defined@(x)\n", ("fn_call_impl", 4): "lda #defined(x@)\n",
+    ("expression_factor", 0): "lda #@1\n", ("expression_factor", 1): "=expression_factor.0", ("expression_factor", 2): "lda #!@-foo\n",
+    ("expression_term", 0): "lda #1@* 2\n", ("expression", 0): "lda #1@+ 2\n",
+    ("kvp", 0): ".define segment {@name = a }\n", ("kvp", 1): ".define segment { name@= a }\n", ("kvp", 2): ".define segment { name =@a }\n",
+    ("config_map", 0): ".define segment@{ name = a }\n", ("config_map", 1): ".define segment { name = a@}\n",
+}
+SLOT_TRIVIA_WS = [" ", "\t", "  \t ", "/* c */", " /* a /* b */ c */ ", "/*" + NON_ASCII[1] + "*/", "/**/\t/* lda #1 */"]
+SLOT_TRIVIA_MWS = SLOT_TRIVIA_WS + ["\n", "\r\n", " // c\n", "//\n", "\n\n  ", "/* a\n b */", " // " + NON_ASCII[0] + "\r\n\t"]
+
+
+def wrapper_slots(tables_v):
+    """[(fn, k, 'ws'|'mws')] of the translated wrapper table"""
+    import re
+    out = []
+    for m in re.finditer(r"Definition W_(\w+) : list wrapper := \[(.*?)\]\.", open(tables_v).read()):
+        for k, w in enumerate(x.strip() for x in m.group(2).split(";")):
+            if w in ("W_ws", "W_mws"):
+                out.append((m.group(1), k, w[2:]))
+    return out
+
+
+def slot_cases(tables_v):
+    """(problems, cases): cases = [(fn, k, kind, trivia, text, expect_diagnostics)] -- every sample trivia at every wrapper"""
+    problems, cases = [], []
+    slots = wrapper_slots(tables_v)
+    known = set((f, k) for f, k, _ in slots)
+    for key in SLOT_TEXTS:
+        if key not in known:
+            problems.append("SLOT_TEXTS has %s.%d, the translated wrapper table has no such ws/mws wrapper" % key)
+    for f, k, kind in slots:
+        t = SLOT_TEXTS.get((f, k))
+        if t is None:
+            problems.append("wrapper %s.%d (%s) of the translated table has no text in gen/progs.py SLOT_TEXTS" % (f, k, kind))
+            continue
+        if t.startswith("="):
+            g, j = t[1:].split(".")
+            if (g, int(j)) not in known or SLOT_TEXTS.get((g, int(j)), "=").startswith("="):
+                problems.append("wrapper %s.%d is declared shadowed by %s, which has no text" % (f, k, t[1:]))
+            continue
+        diag = "diag" if t.startswith("!") else ("unkept" if t.startswith("~") else "")
+        t = t[1:] if diag else t
+        if t.count("@") != 1:
+            problems.append("text of %s.%d does not mark exactly one place" % (f, k))
+            continue
+        for tr in (SLOT_TRIVIA_MWS if kind == "mws" else SLOT_TRIVIA_WS):
+            cases.append((f, k, kind, tr, t.replace("@", tr), diag))
+    return problems, cases
 
 
 if __name__ == "__main__":
